@@ -87,6 +87,10 @@ Proof.
   fold (shr bp p). rewrite IH. cbn [fst snd map]. reflexivity.
 Qed.
 
+Lemma shrink_nf' f bp rest l b : l = map (tag f) rest ->
+  sd_shrink O f bp l b = (map (tag f) (fst (pshrink f bp rest b)), snd (pshrink f bp rest b)).
+Proof. intro E. subst l. apply shrink_nf. Qed.
+
 Definition centroid (keep : list pt) (dim : nat) : pt :=
   map (fun a => o_div O a (o_ofnat O dim)) (fold_left (fun acc p => vadd O acc p) keep (vzero O dim)).
 Definition refl (x0 w : pt) : pt := map2 (fun c w => o_sub O (o_mul O (o_two O) c) w) x0 w.
@@ -127,6 +131,7 @@ Lemma step_nf f ps b : ps <> [] ->
   mkSd (map (tag f) (fst (pstep f (psort O f ps) b))) (snd (pstep f (psort O f ps) b)).
 Proof.
   intro NE. unfold sd_step, pstep, centroid, refl, expa, cont. cbn [sd_simplex sd_best]. cbv zeta.
+  unfold pvec, sol, vec in *.
   rewrite isort_tag. pose proof (psort_length O f ps) as Lq.
   set (qs := psort O f ps) in *.
   assert (length qs <> 0%nat) as Lne by (rewrite Lq; destruct ps; [congruence|discriminate]).
@@ -138,9 +143,8 @@ Proof.
   rewrite firstn_map, fold_left_tagged.
   change (sd_eval f) with (tag f). cbn [tag fst snd].
   repeat match goal with |- context [if ?c then _ else _] => destruct c end; cbn [fst snd]; try (rewrite map_app; reflexivity).
-  replace (tl (map (tag f) qs)) with (map (tag f) (tl qs)) by (destruct qs; reflexivity).
-  change (f (nth 0 qs []), nth 0 qs []) with (tag f (nth 0 qs [])).
-  match goal with |- context [sd_shrink O f ?bp (map (tag f) ?r) ?b] => rewrite (shrink_nf f bp r b) end.
+  assert (tl (map (tag f) qs) = map (tag f) (tl qs)) as Et by (destruct qs; reflexivity).
+  match goal with |- context [sd_shrink O f ?bp ?l ?b] => rewrite (@shrink_nf' f bp (tl qs) l b Et) end.
   cbn [fst snd map]. reflexivity.
 Qed.
 
